@@ -110,6 +110,9 @@ def run(repo: Repo, chk: Check):
                       "has an output exactly when the ISA oracle says the instruction writes a register", floor=140)
     chk.rule("R16.e", "every property of the generic device classes reads the logic type of its own name, which is a LogicType member", floor=600)
 
+    chk.rule("R16.f", "the printing function returns the name (verbose) or the number (compact) of the one member it was given (shared with R08.d)", floor=2)
+    from .c08 import rule_format_enum
+    chk.guarded(rule_format_enum, repo, chk, "R16.f")
     enums = enum_tables(repo)
     # ---------------------------------------------------------------- R16.c
     gpath = repo.mod("types_generated").path
